@@ -477,3 +477,58 @@ def report_function(ctx, res, cf: Confinement, fi: FunctionInfo, rule: str, is_h
     for e in r.numeric_sites:
         pass  # a numeric construction outside the three kernels has conf {} and is caught where it is returned
     return n
+
+
+# ------------------------------------------------------------------ candidate families must be consulted
+def family_bypass(ctx, fi: FunctionInfo, families: List[ast.stmt], scope: List[ast.stmt]):
+    """Completeness companion of the confinement rule: inside `scope` every return that claims a result
+    computed from the candidates -- in particular every `return None` -- must lie behind *every* candidate
+    family (a loop or a guarded add): otherwise an overlap / touching configuration that only that family
+    finds is reported as disjoint or is truncated.  Returns of an operand parameter (a in b -> return a)
+    and returns nested inside a family are complete by themselves and exempt.
+    -> list of (return stmt, family stmt) that are bypassed."""
+    g = ctx.cfg(fi)
+    fam_nodes = []
+    for F in families:
+        ids = list(g.nodes_of(F))
+        if isinstance(F, ast.If):
+            ids = [c.id for c in g.conds() if c.stmt is F]
+        if isinstance(F, ast.Assign) or isinstance(F, ast.Expr):
+            ids = list(g.nodes_of(F))
+        fam_nodes.append((F, set(ids)))
+    inside = set()
+    for F in families:
+        for n in ast.walk(F):
+            inside.add(id(n))
+    out = []
+    for st in scope:
+        for r in ast.walk(st):
+            if not isinstance(r, ast.Return) or id(r) in inside:
+                continue
+            if r.value is not None and isinstance(r.value, ast.Name) and r.value.id in fi.params:
+                continue
+            rn = g.nodes_of(r)
+            if not rn or rn[0] not in g.reachable_nodes():
+                continue
+            for F, ids in fam_nodes:
+                if not ids:
+                    continue
+                if rn[0] in g.reach([g.entry], avoid_nodes=ids):
+                    out.append((r, F))
+    return out
+
+
+def report_bypass(ctx, res, fi: FunctionInfo, rule: str, families: List[ast.stmt], scope: List[ast.stmt], what: str) -> int:
+    bad = family_bypass(ctx, fi, families, scope)
+    ok = not bad
+    res.ob(rule, fi.where(scope[0]) if scope else fi.where(), "%s: every result return lies behind all %d candidate families (%s)" % (
+        fi.short, len(families), what), ok,
+        "no return can bypass a family" if ok else "`%s` (line %d) can be reached without `%s`" % (
+            txt(bad[0][0])[:40], bad[0][0].lineno, txt(bad[0][1]).split("\n")[0][:50]))
+    for r, F in bad[:3]:
+        res.violation(rule, fi, r,
+                      "%s can `%s` without having consulted the candidate family `%s` (line %d): configurations that only "
+                      "this family detects are reported as disjoint or truncated" % (
+                          fi.short, txt(r)[:40], txt(F).split("\n")[0][:60], F.lineno),
+                      construct="%s: `%s` bypasses `%s`" % (fi.short, txt(r)[:40], txt(F).split("\n")[0][:60]))
+    return 1
